@@ -430,19 +430,19 @@ def work_purge(args):
         roots[name] = w.root
     before = {n: in_child(lambda n=n: store_view(roots[n])) for n in roots}
 
-    def tool():
+    def tool(dbname='verif', target='X'):
         import runpy
         import logging
         # the process environment (dawgie.context defaults) names store Y; the
         # command line names store X
         import dawgie.context as c
-        y, x = roots['Y'], roots['X']
+        y, x = roots['Y'], roots[target]
         world.install_store_seams()
         c.db_impl, c.db_name = 'shelve', 'verif'
         c.db_path = c.db_rotate_path = os.path.join(y, 'db')
         c.data_dbs, c.data_stg, c.data_log = (os.path.join(y, d) for d in ('dbs', 'stg', 'logs'))
         os.environ['DAWGIE_DOCKERIZED_AE_GIT_REVISION'] = 'verif'
-        sys.argv = ['purge.py', '--context-db-impl', 'shelve', '--context-db-name', 'verif',
+        sys.argv = ['purge.py', '--context-db-impl', 'shelve', '--context-db-name', dbname,
                     '--context-db-path', os.path.join(x, 'db'),
                     '--context-data-dbs', os.path.join(x, 'dbs'),
                     '--context-data-stg', os.path.join(x, 'stg'),
@@ -485,6 +485,22 @@ def work_purge(args):
         if prime and sorted(set(prime.values())) != files:
             ctx.violation('C07/purge/unreferenced-file-left-in-purged-store',
                           f'files {files}, referenced {sorted(set(prime.values()))}', rep)
+    # the tool pointed at Y's store with a mistyped data-base name: shelve creates
+    # a fresh, empty catalogue; nothing of the store may go
+    res = in_child(lambda: tool('verjf', 'Y'))
+    ctx.count('purges')
+    view = in_child(lambda: store_view(roots['Y']))
+    rep2 = dict(rep, op='purge --context-db-name <mistyped> on the other store')
+    if not view or view[0] == 'EXC':
+        ctx.violation('C07/purge/store-Y-does-not-open', f'{view}', rep2)
+    else:
+        prime, files = view
+        for k, v in sorted(prime.items()):
+            if v not in files:
+                ctx.violation('C07/dangling-reference/after-purge/empty-catalogue',
+                              f'purge run with an empty (mistyped) catalogue (tool result {res}): entry {k} -> {v}: '
+                              f'no such file (files before {after["Y"][1] if after["Y"] else None}, after {files})', rep2)
+                break
     for r in roots.values():
         shutil.rmtree(r, ignore_errors=True)
     return ctx.export()
